@@ -52,9 +52,12 @@ def order_inputs(ctx):
     return cases
 
 
-def cyclic_program(r, cyclic=None):
+def cyclic_program(r, cyclic=None, info=None):
     """globals and functions forming a random dependency graph; with probability 1/2 it has a cycle
-    (through values, through functions, or a self loop)"""
+    (through values, through functions, or a self loop).  A value global mentions some of its dependencies inside a
+    function literal that it passes to `app` (called at once) or keeps in a tuple (stored): such a mention is a
+    dependency like any other.  info (a dict), when given, receives value_cycle: some cycle goes through a value
+    global, i.e. the program must be rejected."""
     n = r.randint(2, 6)
     names = ["v%d" % i for i in range(n)]
     kinds = [r.choice(["val", "fn"]) for _ in range(n)]
@@ -79,7 +82,14 @@ def cyclic_program(r, cyclic=None):
         deps = sorted(edges[i])
         def ref(j):
             return "%s()" % names[j] if kinds[j] == "fn" else names[j]
-        e = " + ".join([str(r.randint(1, 5))] + [ref(j) for j in deps])
+        def wrapped(j):
+            x = r.random()
+            if kinds[i] == "fn" or x < 0.6:
+                return ref(j)
+            if x < 0.8:
+                return "app(fn -> int do\n    ret %s\nend)" % ref(j)
+            return "(fn -> int do\n    ret %s\nend, 0)[1]" % ref(j)
+        e = " + ".join([str(r.randint(1, 5))] + [wrapped(j) for j in deps])
         if kinds[i] == "fn":
             if i in edges[i]:
                 items.append("%s :: fn -> int do\n    if true do\n        ret 1\n    end\n    ret %s\nend\n" % (names[i], e))
@@ -89,6 +99,18 @@ def cyclic_program(r, cyclic=None):
             items.append("%s :: %s\n" % (names[i], e))
     items.append("start :: fn do\n%s    ret\nend\n" % "".join(
         "    print(%s)\n" % ("%s()" % names[i] if kinds[i] == "fn" else names[i]) for i in range(n)))
+    items.append("app :: fn f: fn -> int -> int do\n    ret f()\nend\n")
+    if info is not None:
+        # a value global on a cycle: it reaches itself
+        def reach(a):
+            seen, todo = set(), list(edges[a])
+            while todo:
+                x = todo.pop()
+                if x not in seen:
+                    seen.add(x)
+                    todo += list(edges[x])
+            return seen
+        info["value_cycle"] = any(kinds[i] == "val" and i in reach(i) for i in range(n))
     r.shuffle(items)
     return "\n".join(items)
 
@@ -196,14 +218,19 @@ def oracle_items(ctx, n, salt):
     items += type_mention_items(ctx, salt)
     for i in range(n):
         r = vlib.rng(ctx.seed, "%s-graph-%d" % (salt, i))
-        src = cyclic_program(r)
+        info = {}
+        src = cyclic_program(r, info=info)
         paras = [x for x in src.split("\n\n") if x.strip()]
         variants = []
         perms = list(itertools.permutations(paras)) if len(paras) <= 4 else None
         for k in range(4):
             q = list(perms[r.randrange(len(perms))]) if perms else r.sample(paras, len(paras))
             variants.append(rg.single(rg.EXT_PRINT + "\n\n".join(q) + "\n", False))
-        items.append({"cls": "dependency-graph", "variants": variants})
+        it = {"cls": "dependency-graph", "variants": variants}
+        if info.get("value_cycle"):
+            it["must_reject"] = True
+            it["why_reject"] = "a global's initialiser depends on the global itself (through values, functions or function literals)"
+        items.append(it)
     return items
 
 
@@ -388,7 +415,7 @@ def judge(it, res):
     if it.get("must_reject"):
         for k, x in enumerate(res):
             if x[0] == "OK":
-                return "an ill-typed program (a declared type is mentioned only in an annotation) is accepted in this order", k
+                return (it.get("why_reject") or "an ill-typed program (a declared type is mentioned only in an annotation)") + ": accepted in this order", k
     for k, x in enumerate(res[1:], 1):
         if x == base:
             continue
